@@ -210,3 +210,69 @@ func TestC03InvalidNamedFiles(t *testing.T) {
 		vlib.Class(fmt.Sprintf("invalid-named-file:only-admin=%v", !validAdmin && ext == ".admin"))
 	})
 }
+
+
+// TestC03MissingBase: with the base directory missing (never created, not mounted, moved away under a running agent) no
+// operation - with a valid or an invalid name - creates anything anywhere.
+func TestC03MissingBase(t *testing.T) {
+	rapid.Check(t, func(t *rapid.T) {
+		cfg := vlib.GenConfig(t, 2)
+		s := newSandbox(t, cfg, rapid.Bool().Draw(t, "viaYAML"))
+		defer os.RemoveAll(s.root)
+		how := rapid.SampledFrom([]string{"removed", "moved-away", "parent-missing"}).Draw(t, "how")
+		switch how {
+		case "removed":
+			os.RemoveAll(s.base)
+		case "moved-away":
+			os.Rename(s.base, filepath.Join(s.root, "store.moved"))
+		case "parent-missing":
+			// the store was configured below a directory that does not exist
+			deep := filepath.Join(s.root, "mnt", "whawty", "store")
+			d2, err := cfg.OpenDir(deep, false)
+			if err != nil {
+				t.Fatalf("VERIF-INFRA %v", err)
+			}
+			s.d = d2
+		}
+		name := rapid.SampledFrom([]string{"alice", "newuser", "root", "../sibling/bob", "a.b"}).Draw(t, "name")
+		op := rapid.SampledFrom([]string{"add", "add-admin", "update", "setadmin", "remove", "authenticate", "exists", "list", "check", "init"}).Draw(t, "op")
+		before := vlib.TakeSnap(s.root)
+		vlib.Eval()
+		var err error
+		switch op {
+		case "add":
+			err = s.d.AddUser(name, "pw", false)
+		case "add-admin":
+			err = s.d.AddUser(name, "pw", true)
+		case "update":
+			err = s.d.UpdateUser(name, "pw")
+		case "setadmin":
+			err = s.d.SetAdmin(name, true)
+		case "remove":
+			s.d.RemoveUser(name)
+			err = fmt.Errorf("n/a")
+		case "authenticate":
+			if ok, _, _, _, _ := s.d.Authenticate(name, "alice-pw"); ok {
+				t.Fatalf("VIOLATION C03: authentication succeeded on a store whose base directory is missing (%s)", how)
+			}
+			err = fmt.Errorf("n/a")
+		case "exists":
+			s.d.Exists(name)
+			err = fmt.Errorf("n/a")
+		case "list":
+			_, err = s.d.List()
+		case "check":
+			err = s.d.Check()
+		case "init":
+			err = s.d.Init(name, "pw")
+		}
+		if err == nil {
+			t.Fatalf("VIOLATION C03: %s(%q) succeeded although the base directory is missing (%s)", op, name, how)
+		}
+		if diff := before.Diff(vlib.TakeSnap(s.root), false, nil); len(diff) > 0 {
+			t.Fatalf("VIOLATION C03: %s(%q) on a missing base directory (%s) created or changed file-system objects: %v", op, name, how, diff)
+		}
+		vlib.NT("c03mb", how, op, vlib.NameRe.MatchString(name))
+		vlib.Class("missing-base:" + how)
+	})
+}
